@@ -17,7 +17,7 @@ type ChecksumService[B any, T any] interface {
 }
 
 // sumService is the contract's FP_CHECKSUM=sum algorithm: the sum of all bytes
-// currently in the buffer, modulo 256, converted to the result type.
+// currently in the buffer, modulo 128, converted to the result type.
 type sumService[T Basic] struct{}
 
 func (sumService[T]) Calc(buf *bytes.Buffer) T {
@@ -25,6 +25,7 @@ func (sumService[T]) Calc(buf *bytes.Buffer) T {
 	for _, b := range buf.Bytes() {
 		s += b
 	}
+	s &= 0x7f // modulo 128: fits every result type, signed ones included
 	var z T
 	switch any(z).(type) {
 	case int8:
